@@ -4,7 +4,7 @@ ENGINES = [
     dict(name="driver", path="vf/driver.py", serves_properties=[], kind_free_text="builds targets against /repo's current tree, runs shards on 16 cores, merges reports, known-findings logic, evidence writer"),
     dict(name="corpus+slots", path="vf/gen.py harness/engine.hpp harness/corpus_main.hpp model/peg_model.hpp", serves_properties=["C01", "C02", "C04", "C05", "C06", "C08", "C09"], kind_free_text="generate-compile-run grammar corpus and slot shapes, observer control with match() wrapper, reference PEG model, rapidcheck scripts"),
     dict(name="zoo", path="targets/c02_zoo.cpp", serves_properties=["C02", "C06"], kind_free_text="rule zoo: every hand-written match() rule in rewinding contexts on exhaustive short inputs, invariants from the observer control"),
-    dict(name="enumerators+rapidcheck", path="targets/", serves_properties=["C10", "C14", "C17"], kind_free_text="total enumeration of finite spaces plus rapidcheck generators, explicit independent oracles"),
+    dict(name="enumerators+rapidcheck", path="targets/", serves_properties=["C10", "C14", "C15", "C17", "C20"], kind_free_text="total enumeration of finite spaces plus rapidcheck generators, explicit independent oracles"),
 ]
 NOTES = "All checks: ./check <id> --tier quick|thorough [--replay FILE]; seeds from VERIF_SEED; budgets are case counts."
 NOT_YET = {}
@@ -64,6 +64,18 @@ CLAIMS = {
         text="Exploration: 20 million exhaustive short strings (thorough ~600 million), tens of thousands of generated documents with all their truncations and single-edit mutants, deep nestings and the repository's data files, each judged by PEGTL's seq<json::text,eof> and by oracles/json_ref.hpp (ABNF + Unicode table 3-7); any exception is a violation. The oracle is re-validated against Python's json on 64000 sampled strings in every run; an oracle disagreement makes the run inconclusive, not failing.",
         design_ref="DESIGN.md section 2 C14",
         note="Trusted: oracles/json_ref.hpp and oracles/utf8_ref.hpp (plus Python json as second opinion), compilers."),
+    "C15": dict(
+        engine="enumerators+rapidcheck",
+        technique="exhaustive enumeration of digit strings (0..6 digits x signs x trailers) + boundary neighbourhoods + rapidcheck, against 128-bit reference arithmetic",
+        text="Exploration: every digit string up to one digit beyond the width of the 8/16-bit types (exhaustive), dense neighbourhoods of every 32/64-bit boundary and power of ten, random strings to 25 digits; six rules and three actions over eight integer types and 22 explicit maxima; result, consumed length and stored value compared with exact decimal arithmetic - a stored value is exact, otherwise overflow must be signalled in the documented way.",
+        design_ref="DESIGN.md section 2 C15",
+        note="Trusted: the numeral-syntax reference and the 128-bit comparison in targets/c15_integer.cpp."),
+    "C20": dict(
+        engine="enumerators+rapidcheck",
+        technique="differential testing against a language-exact ABNF matcher for RFC 3986 Appendix A: exhaustive short strings, structured IPv4/IPv6 texts, rapidcheck ABNF derivations and single-edit mutants",
+        text="Exploration: for URI, URI-reference, absolute-URI, IPv4address and IPv6address (each followed by eof) the PEGTL verdict (parse_error = reject) is compared with derivability from the RFC's ABNF, decided by a full-backtracking matcher over the grammar typed as data and self-tested on the RFC's examples. Found that uri::host commits to IPv4address on a prefix (fixed, a9f038e) and a one-past-the-end read in dec_octet (fixed, 7059460).",
+        design_ref="DESIGN.md section 2 C20",
+        note="Trusted: oracles/abnf_ref.hpp, oracles/uri_abnf_ref.hpp (RFC 3986 Appendix A transcription)."),
     "C17": dict(
         engine="enumerators+rapidcheck",
         technique="exhaustive enumeration + rapidcheck against an independent UTF-8/UTF-16 reference encoder",
